@@ -432,6 +432,14 @@ def a3(model: Model, rep: Report):
             if comp is not None and comp[0] == "comp":
                 from ..extreme import fuse_comprehensions
                 comp = fuse_comprehensions(comp)      # a listing pre-filtered by a helper comprehension ranges over that helper's own domain
+            if comp is not None and comp[0] in ("list", "tuple") and not comp[1] and p.cond != TRUE and not subterms(
+                    p.cond, lambda y: y == ops or (y[0] == "attr" and y[2] in ("operations", "_structure", "_acquisition_registry", "_added_operations"))):
+                # a way out that answers with NOTHING without looking at the listing: correct only if no listed measurement could match -- a test on the query alone
+                # (the qubit index against a declared count, a tag spelling) cannot know that
+                rep.fail("C07.A4", construct + "[early empty answer]", f.loc, found=f"returns an empty result when [{show(p.cond)[:120]}]",
+                         required="every answer is the filtered listing", what=f"when [{show(p.cond)[:100]}] the query is answered with an empty array without consulting the listing: "
+                         "measurements that exist for that qubit / tag are not reported (the indices of a qubit are no longer 0..n-1 of ITS measurements)", detail="early-empty")
+                continue
             if comp is None or comp[0] != "comp" or len(comp[3]) != 1:
                 raise AnalysisError(f"{construct}: the result is not a filtered listing ({show(inner) if inner else None})")
             dom, conds = comp[3][0]
